@@ -149,19 +149,16 @@ fn aset_seed() -> Vec<u8> {
     a.serialize().expect("aset seed")
 }
 
-/// every clip name present, one set with all 256 slots named, one with none, one sparse
+/// every clip name present, one set with all 256 slots named, one with none, one sparse —
+/// written by the REFERENCE writer (the seed must not depend on mila's own serializer)
 fn aset_full_seed() -> Vec<u8> {
-    let mut a = ASetFile::new(None);
-    a.anim_clip_table = (0..257).map(|i| Some(format!("clip{}", i))).collect();
+    let clip: Vec<Option<String>> = (0..257).map(|i| Some(format!("clip{}", i))).collect();
     let mut full: Vec<Option<String>> = (0..257).map(|i| Some(format!("n{}", i))).collect();
     full[0] = Some("Full".into());
-    a.sets.push(full);
-    a.sets.push(vec![None; 257]);
     let mut sparse: Vec<Option<String>> = vec![None; 257];
     sparse[32] = Some("".into());
     sparse[255] = Some("ﾂｱ".into());
-    a.sets.push(sparse);
-    a.serialize().expect("aset full seed")
+    vcore::ref_aset::write_image(None, &clip, &[full, vec![None; 257], sparse])
 }
 
 fn asset_seed() -> Vec<u8> {
@@ -539,6 +536,16 @@ fn families(tier: Tier) -> Vec<Family> {
     f
 }
 
+/// the reference-built aset seed must be a file mila reads as three sets (otherwise the seed
+/// would silently exercise the error path only)
+fn seed_self_check() -> Option<String> {
+    let b = aset_full_seed();
+    match util::catch(|| BinArchive::from_bytes(&b, Endian::Little).map_err(|e| e.to_string()).and_then(|a| ASetFile::from_archive(&a).map_err(|e| e.to_string())).map(|s| (s.sets.len(), s.sets.first().map(|x| x.iter().filter(|y| y.is_some()).count())))) {
+        Ok(Ok((3, Some(257)))) => None,
+        other => Some(format!("the reference-built full aset seed is not read as 3 sets with a full first set: {:?}", other.map_err(|p| p.message))),
+    }
+}
+
 fn explore(ctx: &Ctx) -> Outcome {
     let fams = families(ctx.tier);
     let args = vec!["--tier".to_string(), ctx.tier.name().to_string()];
@@ -567,10 +574,13 @@ fn explore(ctx: &Ctx) -> Outcome {
     tally.sample(json!({"family": "dev:0:0", "index": 57, "what": deviate(&seeds()[0], &plan(&seeds()[0], ctx.tier), 57).1}));
     tally.sample(json!({"family": "hdr:0", "index": 12345, "hex": util::hex(&hdr_case(ctx.tier, 12345, End::Little))}));
     let mut o = tally.into_outcome(
-        "deviation-bounded family, deviation bound 1 completed: every conforming seed (16 fixture files + 15 generated files) × its entry points × EVERY single deviation — the 4 bytes at every offset overwritten with every boundary value of B32 in both byte orders, every byte overwritten with {00,01,7F,80,FF}, every truncation length, appends of 1/4/32 bytes of 00/FF — plus all 32-byte files whose four header words range over a boundary set (9 bin-archive entry points), all buffers of ≤ 2 bytes and all 'pack'+count headers for the pack parser. Per case and build: returns Ok/Err (panic located, abort/timeout attributed by subprocess isolation), no single allocation request above 1 MiB + 64 × input, over-declaring headers/entries rejected, anything accepted re-serialized under the same guards. non-trivial = deviated inputs",
+        "deviation-bounded family, deviation bound 1 completed: every conforming seed (16 fixture files + 22 generated files) × its entry points × EVERY single deviation (incl. every ordered pair of aligned words copied one over the other, for small seeds) — the 4 bytes at every offset overwritten with every boundary value of B32 in both byte orders, every byte overwritten with {00,01,7F,80,FF}, every truncation length, appends of 1/4/32 bytes of 00/FF — plus all 32-byte files whose four header words range over a boundary set (9 bin-archive entry points), all buffers of ≤ 2 bytes and all 'pack'+count headers for the pack parser. Per case and build: returns Ok/Err (panic located, abort/timeout attributed by subprocess isolation), no single allocation request above 1 MiB + 64 × input, over-declaring headers/entries rejected, anything accepted re-serialized under the same guards. non-trivial = deviated inputs",
         true,
         vec![("seeds", json!(seed_list)), ("families", json!(fams.len())), ("worker_respawns", json!(res.respawns)), ("chunks", json!(res.chunks)), ("deviation_bound_completed", json!(1)), ("alloc_cap", json!("1 MiB + 64 × input length; hard refusal at 64 MiB"))],
     );
+    if let Some(m) = seed_self_check() {
+        o.warn(m);
+    }
     if let Some(c) = &capped {
         o.coverage.exhaustive = false;
         o.warn(format!("sweep capped: {}", c));
